@@ -191,6 +191,14 @@ def _check_very_wide(n):
             got = get_expectation_value_from_frequencies(marked, counts)
             if abs(got - want) > 1e-12:
                 return False, f"{n} qubits: get_expectation_value_from_frequencies with the marked qubits {sorted(S)} given as a {kind} returns {got}, the sample mean is {want}"
+    # the single-bitstring parity helper: position k of a tuple AND character k of a count string are qubit k
+    from orquestra.quantum.measurements.parities import check_parity
+    for bits in ((1, 0, 0, 1, 0), (0, 1, 1, 0, 0, 0, 1), tuple(one_hot(n - 1)) if n <= 12 else (1, 0, 0)):
+        for marks in ((0,), (len(bits) - 1,), (0, 1), (1, 3) if len(bits) > 3 else (0,), tuple(range(len(bits)))):
+            want_even = sum(bits[q] for q in marks) % 2 == 0
+            for kind, arg in (("tuple", tuple(bits)), ("list", list(bits)), ("str", "".join(map(str, bits)))):
+                if bool(check_parity(arg, marks)) != want_even:
+                    return False, f"check_parity({kind} {arg}, marked qubits {marks}) says {'even' if check_parity(arg, marks) else 'odd'}, the marked bits sum to {sum(bits[q] for q in marks)}"
     return True, "ok"
 
 
